@@ -3,6 +3,8 @@ package main
 // C15: IOS changes always run under a reload guard and survive its banners.
 
 import (
+	"strconv"
+	"regexp"
 	"fmt"
 	"go/token"
 	"go/types"
@@ -474,6 +476,75 @@ func checkC15(p *Prog, r *Report) {
 			}
 			r.floor("R15.6", "returns after a banner match", nret, 1)
 		}
+		// the one-minute matcher itself: evaluated over sample banner messages
+		var yes = []string{" --- SHUTDOWN in 0:01:00 ---", " --- SHUTDOWN in 00:01:00 ---"}
+		var no = []string{" --- SHUTDOWN in 0:02:00 ---", " --- SHUTDOWN in 0:11:00 ---", " --- SHUTDOWN in 1:01:00 ---", " --- SHUTDOWN ABORTED ---"}
+		evaluated := 0
+		for _, cs := range callsOf(sb) {
+			var match func(string) bool
+			desc := ""
+			args := cs.In.Common().Args
+			switch cs.calleeName() {
+			case "regexp.MatchString":
+				if pat, ok := constString(args[0]); ok {
+					if re, err := regexp.Compile(pat); err == nil {
+						match, desc = re.MatchString, "regexp "+strconv.Quote(pat)
+					}
+				}
+			case "(*regexp.Regexp).MatchString":
+				if pat, ok := regexpPatternOf(args[0]); ok {
+					if re, err := regexp.Compile(pat); err == nil {
+						match, desc = re.MatchString, "regexp "+strconv.Quote(pat)
+					}
+				}
+			case "strings.Contains":
+				if sub, ok := constString(args[1]); ok {
+					match, desc = func(x string) bool { return strings.Contains(x, sub) }, "substring "+strconv.Quote(sub)
+				}
+			case "strings.HasSuffix", "strings.HasPrefix":
+				if sub, ok := constString(args[1]); ok {
+					pre := cs.calleeName() == "strings.HasPrefix"
+					match, desc = func(x string) bool {
+						if pre {
+							return strings.HasPrefix(x, sub)
+						}
+						return strings.HasSuffix(x, sub)
+					}, cs.calleeName()+" "+strconv.Quote(sub)
+				}
+			default:
+				continue
+			}
+			if match == nil {
+				continue
+			}
+			// only the matcher whose result reaches the second result of a return
+			t := taintFrom(sb, []ssa.Value{cs.In.Value()})
+			feeds := false
+			for _, ret := range returnsOf(sb) {
+				if len(ret.Results) >= 2 && t[ret.Results[1]] {
+					feeds = true
+				}
+			}
+			if !feeds {
+				continue
+			}
+			evaluated++
+			bad := ""
+			for _, x := range yes {
+				if !match(x) {
+					bad += " does not match " + strconv.Quote(x) + ";"
+				}
+			}
+			for _, x := range no {
+				if match(x) {
+					bad += " matches " + strconv.Quote(x) + ";"
+				}
+			}
+			r.add("R15.6", "one-minute-matcher", p.ipos(cs.In), "the one-minute matcher ("+desc+") accepts the one-minute warning in both spellings IOS prints (0:01:00, 00:01:00) and no other banner", bad == "",
+				"evaluated over sample banner messages:"+bad+" the reload is not re-armed (or re-armed at the wrong time)")
+		}
+		r.add("R15.6", "one-minute-matcher-found", p.pos(sb.Pos()), fmt.Sprintf("%d matcher(s) feeding the re-arm verdict evaluated", evaluated), evaluated >= 1,
+			"the verdict does not come from a constant pattern that can be evaluated: undecided")
 	}
 	r.rule("R15.7", "What stripReloadBanner does after it removed a banner keeps its audited controlling conditions (tables/guards.tsv rows for C15): banner alone before the prompt -> wait for the next prompt and strip it; banner directly behind real output -> try a further prompt; otherwise nothing more is read. (Reading a prompt that will not come ends the run with a time-out; not reading one that comes shifts every later answer.)")
 	ruleGuardTable(p, r, "R15.7", "C15")
@@ -595,4 +666,26 @@ func ruleBannerPatternBounded(p *Prog, r *Report) {
 	walk(re)
 	r.add("R15.9", "banner-pattern-consumes-fixed-line-ends|ios.bannerRe", "", fmt.Sprintf("pattern %q has no unbounded repetition over newlines", pat), bad == "",
 		"the sub-pattern "+bad+" can consume a varying number of newlines: line ends of neighbouring output are removed together with the banner")
+}
+
+// regexpPatternOf: the constant pattern of a *regexp.Regexp value (MustCompile(const) directly,
+// or a package-level variable initialised with it).
+func regexpPatternOf(re ssa.Value) (string, bool) {
+	for _, rt := range valueRoots(re) {
+		switch x := rt.(type) {
+		case *ssa.Call:
+			if f := x.Common().StaticCallee(); f != nil && strings.HasPrefix(shortName(f), "regexp.MustCompile") {
+				if s, ok := constString(x.Common().Args[0]); ok {
+					return s, true
+				}
+			}
+		case *ssa.UnOp:
+			if g, ok := x.X.(*ssa.Global); ok {
+				if s := globalRegexpPattern(g); s != "" {
+					return s, true
+				}
+			}
+		}
+	}
+	return "", false
 }
